@@ -118,6 +118,9 @@ func (its *RepositoryMongo) InitializeCollections(ctx iface.OrdaContext) errors.
 
 // PurgeCollection purges all collections related to collectionName
 func (its *RepositoryMongo) PurgeCollection(ctx iface.OrdaContext, collectionName string) errors.OrdaError {
+	if schema.IsReservedCollectionName(collectionName) {
+		return errors.ServerBadRequest.New(ctx.L(), "reserved collection name '"+collectionName+"'")
+	}
 	if err := its.PurgeAllDocumentsOfCollection(ctx, collectionName); err != nil {
 		return errors.ServerDBQuery.New(ctx.L(), err.Error())
 	}
@@ -152,6 +155,9 @@ func (its *RepositoryMongo) Close(ctx iface.OrdaContext) errors.OrdaError {
 
 // MakeCollection makes a real collection.
 func MakeCollection(ctx iface.OrdaContext, mongo *RepositoryMongo, collectionName string) (int32, errors.OrdaError) {
+	if schema.IsReservedCollectionName(collectionName) {
+		return 0, errors.ServerBadRequest.New(ctx.L(), "reserved collection name '"+collectionName+"'")
+	}
 	collectionDoc, err := mongo.GetCollection(ctx, collectionName)
 	if err != nil {
 		return 0, err
